@@ -187,8 +187,9 @@ def check(pid, tier):
         replay_results = []
         for f in findings:
             rp = os.path.join(VERIF, f["replay"])
-            pkg = f.get("pkg") or spec["units"][0]["pkg"]
-            rc, out, to = replay_once(bins[pkg], tree, pkg, rp, work, f["id"], [])
+            fu = unit_for(spec, json.load(open(rp)).get("check"))
+            pkg = fu["pkg"]
+            rc, out, to = replay_once(bins[bin_key(fu)], tree, pkg, rp, work, f["id"], [])
             if to:
                 infra.append("replay of %s timed out" % f["id"])
                 continue
@@ -212,8 +213,9 @@ def check(pid, tier):
                 if not name.endswith(".json") or os.path.abspath(rp) in listed:
                     continue
                 ff = json.load(open(rp))
-                pkg = unit_pkg(spec, ff.get("check"))
-                rc, out, to = replay_once(bins[pkg], tree, pkg, rp, work, "corpus-" + name, active_known)
+                cu = unit_for(spec, ff.get("check"))
+                pkg = cu["pkg"]
+                rc, out, to = replay_once(bins[bin_key(cu)], tree, pkg, rp, work, "corpus-" + name, active_known)
                 corpus_n += 1
                 if to:
                     infra.append("corpus replay %s timed out" % name)
@@ -304,7 +306,7 @@ def check(pid, tier):
             if os.path.exists(cur) and u.get("crash_is_violation", True):
                 # the process died while executing a case: confirm by replaying that case in a fresh process
                 p = save_replay(pid, cur)
-                rc2, out2, to2 = replay_once(bins[u["pkg"]], tree, u["pkg"], p, work, "crash-%s-%d" % (name, res["shard"]), active_known)
+                rc2, out2, to2 = replay_once(bins[bin_key(u)], tree, u["pkg"], p, work, "crash-%s-%d" % (name, res["shard"]), active_known)
                 if rc2 != 0 and not to2:
                     violations.append((p, "%s shard %d: process died (rc=%s) and the saved case reproduces it:\n%s" %
                                        (name, res["shard"], res["rc"], out2[-1500:])))
@@ -410,11 +412,19 @@ def tail_fail(out):
     return "\n".join(keep[-40:])
 
 
-def unit_pkg(spec, check_name):
+def unit_for(spec, check_name):
     for u in spec["units"]:
         if u["test"] == check_name or check_name in u.get("also", []):
-            return u["pkg"]
-    return spec["units"][0]["pkg"]
+            return u
+    return spec["units"][0]
+
+
+def unit_pkg(spec, check_name):
+    return unit_for(spec, check_name)["pkg"]
+
+
+def bin_key(u):
+    return u["pkg"] + ("+asan" if u.get("asan") else "")
 
 
 def replay(path):
@@ -424,8 +434,9 @@ def replay(path):
     work = make_work("replay")
     try:
         tree = prepare_tree(work)
-        pkg = unit_pkg(spec, ff.get("check"))
-        binp = build(work, tree, pkg)
+        u = unit_for(spec, ff.get("check"))
+        pkg = u["pkg"]
+        binp = build(work, tree, pkg, ("-asan",), "+asan") if u.get("asan") else build(work, tree, pkg)
         known = [f["id"] for f in load_known() if f["property"] == pid and f["status"] == "known"]
         if os.environ.get("VERIF_NO_KNOWN"):
             known = []
